@@ -84,6 +84,26 @@ def back_slice(flow, expr, depth=4, _seen=None):
                     vals = [st.value]
                 for v in vals:
                     out += back_slice(flow, v, depth - 1, _seen)
+            # the object's contents also depend on what is put into it in place (x.append(v), x[i] = v),
+            # and on the loops / tests those statements sit under
+            for mn, mst in flow._mutation_sites(n.id):
+                if ("mut", id(mst)) in _seen:
+                    continue
+                _seen.add(("mut", id(mst)))
+                vals = []
+                if isinstance(mst, (ast.Assign, ast.AugAssign, ast.AnnAssign)) and getattr(mst, "value", None) is not None:
+                    vals.append(mst.value)
+                elif isinstance(mst, ast.Expr):
+                    vals.append(mst.value)
+                a = getattr(mst, "parent", None)
+                while a is not None and a is not flow.f.node:
+                    if isinstance(a, (ast.For, ast.AsyncFor)):
+                        vals.append(a.iter)
+                    elif isinstance(a, (ast.If, ast.While)):
+                        vals.append(a.test)
+                    a = getattr(a, "parent", None)
+                for v in vals:
+                    out += back_slice(flow, v, depth - 1, _seen)
     return out
 
 
